@@ -89,7 +89,10 @@ func errWrapf(err error, msg string, v ...interface{}) error {
 func splitAllPaths(path string) []string {
 	dir, file := filepath.Dir(path), filepath.Base(path)
 	parts := []string{}
-	for dir != file {
+	// Walk upwards until the root of the path is reached ("." for relative and
+	// "/" for absolute paths). Note that dir == file is not enough as stop
+	// condition, as it also holds for a folder named like its parent ("a/a")
+	for file != "." && file != "/" {
 		parts = append([]string{file}, parts...)
 		dir, file = filepath.Dir(dir), filepath.Base(dir)
 	}
